@@ -167,7 +167,10 @@ fn emit_case(out: &mut Out, rng: &mut Rng, models: &[TableDef], history: &[Migra
                 Err(e) => format!("(Err {})", VErr(&e).gs()),
             });
         }
-        let prefixed = np.clone().with_prefix("app_").actions.gs();
+        // with_prefix of the planned actions and of the actions as `revision` writes them (fill values included)
+        let mut prefixed_actions = np.clone().with_prefix("app_").actions;
+        prefixed_actions.extend(filled_plan.clone().with_prefix("app_").actions);
+        let prefixed = prefixed_actions.gs();
         let validate_raw = match validate_migration_plan(&np) {
             Ok(()) => "(Ok tt)".to_string(),
             Err(e) => format!("(Err {})", VErr(&e).gs()),
@@ -264,7 +267,8 @@ fn emit_case(out: &mut Out, rng: &mut Rng, models: &[TableDef], history: &[Migra
             let lit_plan: Vec<MigrationAction> = p.actions.iter().map(|a| gener::literal_action(pfx, a)).collect();
             let equivariant = matches!(diff_schemas(&lb, &lm), Ok(d) if d.actions == lit_plan);
             let with_prefix = p.clone().with_prefix(pfx).actions;
-            let wp_literal = with_prefix == lit_plan;
+            let lit_filled: Vec<MigrationAction> = fp.actions.iter().map(|a| gener::literal_action(pfx, a)).collect();
+            let wp_literal = with_prefix == lit_plan && fp.clone().with_prefix(pfx).actions == lit_filled;
             let first_diff = with_prefix.iter().zip(lit_plan.iter()).position(|(x, y)| x != y);
             oracles.insert("c14".into(), json!({"ok": equivariant && wp_literal, "equivariant": equivariant, "with_prefix_is_literal": wp_literal, "first_differing_action": first_diff}));
         }
